@@ -43,7 +43,7 @@ def _mk_frame(spec, ao):
     if k == "spectral":
         return cf.SpectralFrame(axes_order=tuple(ao), unit=u.Unit(spec["unit"]), name=spec["name"])
     if k == "temporal":
-        return cf.TemporalFrame(time.Time("2020-01-01T00:00:00"), unit=u.s, axes_order=tuple(ao), name=spec["name"])
+        return cf.TemporalFrame(time.Time("2020-01-01T00:00:00"), unit=u.Unit(spec.get("unit", "s")), axes_order=tuple(ao), name=spec["name"])
     if k == "stokes":
         return cf.StokesFrame(axes_order=tuple(ao), name=spec["name"])
     if k == "generic1":
@@ -118,6 +118,11 @@ def impl(case):
     try:
         gen = values_to_high_level_objects(*world, low_level_wcs=w)
         res["generic_kinds"] = sorted(type(o).__name__ for o in gen)
+        # values carried by the generic objects, matched to sub-frames through the class keys
+        order = list(dict.fromkeys(c[0] for c in res["comps"]))
+        if len(gen) == len(order) == len(res["class_keys"]) == len(subs):
+            gen_by_key = dict(zip(order, gen))
+            res["generic_objs"] = [_obj_values(gen_by_key[k], f) for k, f in zip(res["class_keys"], subs)]
         back = high_level_objects_to_values(*gen, low_level_wcs=w)
         res["generic_back"] = [float(v) for v in back]
     except Exception as e:
@@ -215,6 +220,11 @@ def oracle(case, res):
     else:
         if any(abs(a - b) > 1e-9 * max(1.0, abs(b)) for a, b in zip(res["generic_back"], world)) or len(res["generic_back"]) != n:
             out.append((k11 or "components", "components applied to astropy's generic objects give %s, world values are %s" % (res["generic_back"], world)))
+        if "generic_objs" in res:
+            for f, ((k1, v1), (k2, v2)) in enumerate(zip(res["objs"], res["generic_objs"])):
+                if k1 != k2 or len(v1) != len(v2) or any(abs(a - b) > 1e-9 * max(1.0, abs(b)) for a, b in zip(v1, v2)):
+                    out.append((k11 or k30 or "kinds", "sub-frame %d: pixel_to_world builds %s %s, astropy's generic machinery builds %s %s from the same WCS" %
+                                (f, k1, v1, k2, v2)))
         if res["generic_kinds"] != res["own_kinds"]:
             out.append((k11 or k30 or "kinds", "pixel_to_world returns %s, astropy's generic machinery builds %s" % (res["own_kinds"], res["generic_kinds"])))
     if "own_back_err" in res:
@@ -324,6 +334,8 @@ def gen(rng, tier):
                 spec["units"] = rng.choice([["deg", "deg"], ["deg", "deg"], ["arcsec", "deg"], ["deg", "arcmin"], ["arcmin", "arcsec"]])
             if kind == "spectral":
                 spec["unit"] = rng.choice(["um", "nm", "Hz", "AA"])
+            if kind == "temporal":
+                spec["unit"] = rng.choice(["s", "min", "h", "d"])
             if kind == "generic1":
                 spec["atype"] = rng.choice(["SPATIAL", "PIXEL", "custom"])
                 spec["unit"] = rng.choice(["m", "s", "pix"])
